@@ -7,6 +7,7 @@ from hypothesis import strategies as st
 NAMES = ["x", "y", "z", "w"]
 SUBNAMES = ["t", "lat", "at", "la"]     # names that are substrings of one another / of a comma-joined group name
 WORDS = ["a", "b", "c", "d", "e", "f", "g", "h", "k", "m"]
+NUMWORDS = ["2", "10", "7", "05", "1e3", "-1", "3.5"]        # strings that look like numbers (they are strings)
 
 
 def names_pool():
@@ -41,9 +42,13 @@ def labels(draw, n, kind=None, order=None, kinds="ifs"):
             vals = draw(st.lists(st.integers(-6, 14), min_size=n, max_size=n, unique=True))
     elif kind == "f":
         ks = draw(st.lists(st.integers(-12, 28), min_size=n, max_size=n, unique=True))
-        vals = [k / 10.0 for k in ks] if draw(st.integers(0, 3)) == 0 else [k / 4.0 for k in ks]
+        c = draw(st.integers(0, 7))
+        if c == 0:
+            vals = [2000.0 + k / 100.0 for k in ks]       # large magnitude, small spacing (relative differences of 5e-6)
+        else:
+            vals = [k / 10.0 for k in ks] if c in (1, 2) else [k / 4.0 for k in ks]
     else:
-        vals = draw(st.lists(st.sampled_from(WORDS), min_size=n, max_size=n, unique=True))
+        vals = draw(st.lists(st.sampled_from(NUMWORDS if n <= len(NUMWORDS) and draw(st.integers(0, 7)) == 0 else WORDS), min_size=n, max_size=n, unique=True))
     if order == "inc":
         vals = sorted(vals)
     elif order == "dec":
@@ -147,7 +152,7 @@ def absent_label(labs, kind, where, k=0):
     return int(v) if kind == "i" else float(v)
 
 
-RELATIONS = ["equal", "permuted", "subset", "superset", "overlapping", "disjoint"]
+RELATIONS = ["equal", "permuted", "subset", "superset", "overlapping", "disjoint", "interior"]
 
 
 @st.composite
@@ -181,6 +186,13 @@ def related_labels(draw, base, kind, relation=None, allow_empty=False, order=Non
     elif rel == "overlapping":
         keep = draw(st.lists(st.booleans(), min_size=len(base), max_size=len(base)))
         new = [b for b, k in zip(base, keep) if k] + fresh(draw(st.integers(1, 2)), base)
+    elif rel == "interior":
+        # same length, same first and last label, other labels in between (where that is possible)
+        if len(base) >= 3:
+            mid = fresh(len(base) - 2, base)
+            new = [base[0]] + mid + [base[-1]]
+        else:
+            new = list(base) + fresh(1, base)
     elif rel == "disjoint":
         new = fresh(draw(st.integers(1, 3)), base)
     elif rel == "empty":
